@@ -80,63 +80,75 @@ def scale (base : Nat) (m : Nat) (e : Int) : Q :=
   if e ≥ 0 then ((m : Int) : Q) * (((base ^ e.toNat : Nat) : Int) : Q)
   else ((m : Int) : Q) / (((base ^ (-e).toNat : Nat) : Int) : Q)
 
+/-- the text after an optional sign -/
+def stripSign : Bytes → Bytes
+  | 43 :: r => r
+  | 45 :: r => r
+  | r => r
+
+def isNeg : Bytes → Bool
+  | 45 :: _ => true
+  | _ => false
+
+/-- `0x` / `0X` prefix followed by something: a hexadecimal mantissa -/
+def hexSplit (body : Bytes) : Bool × Bytes :=
+  match body with
+  | 48 :: x :: r => if lower x == 120 && !r.isEmpty then (true, r) else (false, body)
+  | _ => (false, body)
+
+/-- the optional exponent (`e` / `p`, optional sign, at least one digit); a hexadecimal mantissa requires one.
+    `none`: malformed.  Otherwise the exponent and the unread rest. -/
+def expPart (hex : Bool) (rest : Bytes) : Option (Int × Bytes) :=
+  match rest with
+  | c :: r =>
+    if lower c == (if hex then 112 else 101) then
+      let (esign, r) : (Int × Bytes) := match r with
+        | 43 :: r' => (1, r')
+        | 45 :: r' => (-1, r')
+        | _ => (1, r)
+      match r with
+      | d :: _ => if isDigit d then
+          let (e, r') := scanExpDigits r 0
+          some (esign * (e : Int), r')
+        else none
+      | [] => none
+    else if hex then none else some (0, rest)
+  | [] => if hex then none else some (0, [])
+
+/-- value and range: mantissa `m` (as an integer), `frac` digits after the dot, exponent `e` -/
+def finish (neg hex : Bool) (m frac : Nat) (e : Int) : PF :=
+  if m == 0 then .value 0
+  else
+    let nd := (Nat.toDigits 10 m).length
+    let e2 : Int := if hex then e - 4 * (frac : Int) else e - (frac : Int)
+    -- clamp absurd exponents before building the rational
+    if e2 + (nd : Int) > 1200 then .bad
+    else if e2 + (nd : Int) < -1500 then .value 0
+    else
+      let v := scale (if hex then 2 else 10) m e2
+      if v ≥ overflowBound then .bad
+      else .value (if neg then -v else v)
+
 /-- `strconv.ParseFloat(s, 64)`: acceptance and exact value. -/
 def parseFloat (s : Bytes) : PF :=
   if s.isEmpty then .bad else
   -- special spellings
-  let body := match s with
-    | 43 :: r => r
-    | 45 :: r => r
-    | r => r
+  let body := stripSign s
   let signed := body.length != s.length
   let lowerBody := body.map lower
   if lowerBody == ofString "inf" || lowerBody == ofString "infinity" then .nonFinite
   else if !signed && lowerBody == ofString "nan" then .nonFinite
   else
-    let neg := match s with
-      | 45 :: _ => true
-      | _ => false
-    let (hex, rest) := match body with
-      | 48 :: x :: r => if lower x == 120 && !r.isEmpty then (true, r) else (false, body)
-      | _ => (false, body)
-    let (digits, frac, _, rest) := scanMantissa hex rest false [] 0
-    if digits.isEmpty then .bad else
-    let expChar : UInt8 := if hex then 112 else 101
-    let base := if hex then 16 else 10
-    let m := digits.foldl (fun a d => a * base + d) 0
-    -- optional exponent
-    let expRes : Option (Int × Bytes) :=
-      match rest with
-      | c :: r =>
-        if lower c == expChar then
-          let (esign, r) : (Int × Bytes) := match r with
-            | 43 :: r' => (1, r')
-            | 45 :: r' => (-1, r')
-            | _ => (1, r)
-          match r with
-          | d :: _ => if isDigit d then
-              let (e, r') := scanExpDigits r 0
-              some (esign * (e : Int), r')
-            else none
-          | [] => none
-        else if hex then none else some (0, rest)
-      | [] => if hex then none else some (0, [])
-    match expRes with
+    let hr := hexSplit body
+    let sm := scanMantissa hr.1 hr.2 false [] 0
+    if sm.1.isEmpty then .bad else
+    let m := sm.1.foldl (fun a d => a * (if hr.1 then 16 else 10) + d) 0
+    match expPart hr.1 sm.2.2.2 with
     | none => .bad
     | some (e, rest) =>
       if !rest.isEmpty then .bad
       else if s.contains 95 && !underscoreOK s then .bad
-      else if m == 0 then .value 0
-      else
-        let nd := (Nat.toDigits 10 m).length
-        let e2 : Int := if hex then e - 4 * (frac : Int) else e - (frac : Int)
-        -- clamp absurd exponents before building the rational
-        if e2 + (nd : Int) > 1200 then .bad
-        else if e2 + (nd : Int) < -1500 then .value 0
-        else
-          let v := scale (if hex then 2 else 10) m e2
-          if v ≥ overflowBound then .bad
-          else .value (if neg then -v else v)
+      else finish (isNeg s) hr.1 m sm.2.1 e
 
 /-- round `n / d` to the nearest integer, ties to even -/
 def roundHalfEven (n d : Nat) : Nat :=
